@@ -37,10 +37,10 @@ def allocIterF (a : Ty → Bytes → Nat) (d : Ty → Bytes → Res (Val × Byte
 
 def allocLeaf : Ty → Bytes → Nat
   | .str, bs => match rd16 bs with
-    | some (l, r) => if r.length < l then 0 else l
+    | some (l, r) => if lenLt r l then 0 else l
     | none => 0
   | .bin, bs => match rd32 bs with
-    | some (l, r) => if r.length < l then 0 else l
+    | some (l, r) => if lenLt r l then 0 else l
     | none => 0
   | _, _ => 0
 
@@ -60,7 +60,7 @@ def alloc (o : Opts) : Nat → Bool → Ty → Bytes → Nat
         else match rd32 r with
           | none => 0
           | some (n, r') =>
-            if n = 0 ∨ n > r'.length then 0
+            if n = 0 ∨ lenLt r' n then 0
             else n * t'.size + allocIter (alloc o fuel false t') (dec o fuel false t') n r'
     | .array n t' => if bs = [] then 0 else allocIter (alloc o fuel false t') (dec o fuel false t') n bs
     | .map kt vt =>
@@ -71,7 +71,7 @@ def alloc (o : Opts) : Nat → Bool → Ty → Bytes → Nat
         else match rd32 r with
           | none => 0
           | some (n, r') =>
-            if n = 0 ∨ n > r'.length then 0
+            if n = 0 ∨ lenLt r' n then 0
             else n * (kt.size + vt.size) +
               allocIterP kt.size vt.size (alloc o fuel false kt) (alloc o fuel false vt) (dec o fuel false kt) (dec o fuel false vt) n r'
     | .named _ (.slice t') =>
@@ -82,7 +82,7 @@ def alloc (o : Opts) : Nat → Bool → Ty → Bytes → Nat
         else match rd32 r with
           | none => 0
           | some (n, r') =>
-            if n > r'.length then 0
+            if lenLt r' n then 0
             else n * t'.size + allocIter (alloc o fuel false t') (dec o fuel false t') n r'
     | .named _ (.array n t') => if bs = [] then 0 else allocIter (alloc o fuel false t') (dec o fuel false t') n bs
     | .named _ (.map kt vt) =>
@@ -94,7 +94,7 @@ def alloc (o : Opts) : Nat → Bool → Ty → Bytes → Nat
           | none => 0
           | some (n, r') =>
             -- after the fix fd28ef1 the count check precedes MakeMapWithSize (as in the unnamed map decoder)
-            if n = 0 ∨ n > r'.length then 0
+            if n = 0 ∨ lenLt r' n then 0
             else n * (kt.size + vt.size) +
               allocIterP kt.size vt.size (alloc o fuel false kt) (alloc o fuel false vt) (dec o fuel false kt) (dec o fuel false vt) n r'
     | .named _ t' => allocLeaf t' bs
